@@ -2,6 +2,8 @@
 # Validation aid: applies every seeded change to a scratch worktree of /repo, runs all 19 quick checks against it and
 # records which checks report a violation (rule ids) in seeded/<id>/meta.json and seeded/MATRIX.md.
 cd /verif
+# a private copy of the tool: the matrix takes long and bin/jsverif may be rebuilt meanwhile
+SNAP=$(mktemp /tmp/jsverif-snap.XXXXXX); cp "${JSVERIF_BIN:-/verif/bin/jsverif}" "$SNAP"; chmod +x "$SNAP"; export JSVERIF_BIN="$SNAP"; trap 'rm -f "$SNAP"' EXIT
 one() {
   d="$1"; id=$(basename "$d")
   wt=$(mktemp -d /tmp/sm-wt.XXXXXX); rmdir "$wt"; vd=$(mktemp -d /tmp/sm-vd.XXXXXX)
@@ -10,10 +12,10 @@ one() {
   ln -s /verif/known_findings.json "$vd/known_findings.json"; ln -s /verif/tools "$vd/tools"
   out="$d/.matrix.txt"; : > "$out"
   for p in C01 C02 C03 C04 C05 C06 C07 C08 C09 C10 C11 C12 C13 C14 C15 C16 C17 C18 C19; do
-    VERIF_REPO="$wt" VERIF_DIR="$vd" timeout 900 /verif/bin/jsverif check $p quick 2>&1 | grep -a "^VIOLATION" | sed -E "s/^VIOLATION property=([A-Z0-9]+) replay=[^ ]+ rule=([^ ]+) .*/\1 \2/" | sort -u >> "$out"
+    VERIF_REPO="$wt" VERIF_DIR="$vd" timeout 900 ${JSVERIF_BIN:-/verif/bin/jsverif} check $p quick 2>&1 | grep -a "^VIOLATION" | sed -E "s/^VIOLATION property=([A-Z0-9]+) replay=[^ ]+ rule=([^ ]+) .*/\1 \2/" | sort -u >> "$out"
   done
   git -C /repo worktree remove --force "$wt"; rm -rf "$vd"
   echo "$id $(awk '{print $1}' "$out" | sort -u | tr '\n' ' ')"
 }
 export -f one
-ls -d seeded/C*-*m* | xargs -P 5 -I{} bash -c 'one {}' | sort
+ls -d seeded/C*-*m* | xargs -P 7 -I{} bash -c 'one {}' | sort
